@@ -46,7 +46,7 @@ type genOutcome struct {
 
 func partsNonEmpty(ps []proto.Part) bool {
 	for _, p := range ps {
-		if p.Text != "" || p.Ref != "" || p.Value != "" || p.Tmpl != "" || p.DocRef != "" {
+		if p.Text != "" || p.Ref != "" || p.Value != "" || p.Tmpl != "" || p.DocRef != "" || p.Results {
 			return true
 		}
 	}
@@ -69,8 +69,8 @@ func outcome(g *proto.GenScript, pkg string, events []proto.Event) genOutcome {
 			case p.State == "inst-count":
 				o.Parts = append(o.Parts, proto.Part{Text: p.Text + fmt.Sprint(seen)})
 			default:
-				if p.Value != "" {
-					o.HasValue = true
+				if p.Value != "" || p.Results {
+					o.HasValue = true // text the driver does not predict
 				}
 				o.Parts = append(o.Parts, p)
 			}
@@ -149,6 +149,13 @@ func (x *Exec) checkRun(rec *StepRecord) {
 	resp := rec.Resp
 	base := run.Args.Base
 	changed := Diff(rec.Pre, rec.Post)
+
+	if resp != nil && len(resp.Late) > 0 {
+		// L1: when Execute returns - with or without an error - the run is over. A gengo that hands control
+		// back to a cancelled caller while a callback is still running, and then goes on writing, makes the
+		// state of the module depend on when the leftover work lands (before or after the caller's next step).
+		x.violate(x.Sc.Property, "L1", "still-working-after-execute-returned", fmt.Sprintf("after Execute returned %q: %s", resp.ExecErr, strings.Join(resp.Late, "; ")), nil)
+	}
 
 	processed := rec.Direct
 	if run.Args.All {
@@ -357,6 +364,10 @@ func (x *Exec) checkRun(rec *StepRecord) {
 	// ---- G3 + C05 instance invariant: on every trace, successful or not
 	instPkg := map[int]string{}
 	for _, e := range resp.Events {
+		for _, p := range e.Problems {
+			// an inspecting generator found the universe it was handed at odds with go/types
+			x.violate("C13", p.Oracle, p.Class, fmt.Sprintf("seen by generator %s in %s: %s", e.Gen, e.Pkg, p.Detail), nil)
+		}
 		switch e.Kind {
 		case "gen", "alias":
 			if !strings.HasPrefix(e.Scope, "package") || strings.Contains(e.Scope, "foreign") {
@@ -802,7 +813,9 @@ func (x *Exec) checkCalls(rec *StepRecord, pi int, g *proto.GenScript, o genOutc
 		wantAlias = nil
 	}
 	aliasNames := map[string]bool{}
+	inSpec := map[string]bool{}
 	for _, td := range m.Pkgs[pi].TypeDecls() {
+		inSpec[td.Name] = true
 		if td.Alias {
 			aliasNames[td.Name] = true
 		}
@@ -825,6 +838,9 @@ func (x *Exec) checkCalls(rec *StepRecord, pi int, g *proto.GenScript, o genOutc
 	for n, c := range gotNamed {
 		if c > 1 {
 			x.violate("C06", "G1", "type-generated-twice", fmt.Sprintf("%s: %s.%s x%d", g.Name, ip, n, c), nil)
+		}
+		if !inSpec[n] {
+			continue // declared by a generated file that an earlier run left in the package: not a type the spec knows
 		}
 		if !contains(wantNamed, n) && !aliasNames[n] {
 			x.violate("C06", "G1", "disabled-type-generated", fmt.Sprintf("%s: %s.%s", g.Name, ip, n), nil)
